@@ -3,6 +3,7 @@ package detsim
 import (
 	"container/heap"
 	"fmt"
+	"strings"
 	"time"
 )
 
@@ -24,6 +25,7 @@ type Timer struct {
 	site   string
 	idx    int
 	tick   *Ticker
+	noStall bool // harness deadline: the stall strategy never jumps the clock over it
 }
 
 type timerHeap []*Timer
@@ -99,7 +101,7 @@ func NewTimerAt(site string, d time.Duration) *Timer {
 	}
 	s.me()
 	c := make(chan time.Time, 1)
-	t := &Timer{C: c, c: c, s: s, site: site}
+	t := &Timer{C: c, c: c, s: s, site: site, noStall: strings.HasPrefix(site, "deadline")}
 	s.arm(t, d)
 	return t
 }
